@@ -237,9 +237,11 @@ Definition skip_of (m : mon21) (it : list item) (s e iv' : N) : option N :=
   else
     match q_pend m with
     | Some (PUpdate wsz woff _ _ _, _) =>
-        if upd_evidence
-        then Some ((centre + q_iv m / 2 - woff * 1250 - wsz * 1250 / 2) / q_iv m)    (* the transmit window of the update *)
-        else if centre mod q_iv m =? 0 then Some (centre / q_iv m) else None
+        (* the transmit window of the update: seen by the new interval / the callback, or - without callbacks and with an
+           unchanged interval - by a window that is no whole number of intervals from the anchor *)
+        if upd_evidence || negb (centre mod q_iv m =? 0)
+        then Some ((centre + q_iv m / 2 - woff * 1250 - wsz * 1250 / 2) / q_iv m)
+        else Some (centre / q_iv m)
     | _ => if centre mod q_iv m =? 0 then Some (centre / q_iv m) else None
     end.
 
